@@ -225,6 +225,19 @@ Theorem evm_side_lists_restored : forall body st,
 Proof. exact (failed_call_lists code_fixd). Qed.
 Print Assumptions evm_side_lists_restored.
 
+(* The outbound set: after any call tree without lockup claims the ETX cache holds, after what it held
+   before, exactly the sends of the frames that ended well together with every frame around them, in
+   program order - nothing sent inside a frame that failed, at any depth, whatever came after it. *)
+Theorem outbound_set_is_kept_sends_partial : forall f st,
+  no_claim f = true -> e_etxs (eexec code_fixd f st) = e_etxs st ++ kept f.
+Proof. exact (outbound_kept code_fixd). Qed.
+Print Assumptions outbound_set_is_kept_sends_partial.
+
+Example outbound_set_nonvacuous :
+  let t := ECall [EEmit 1; ECall [EEmit 2; ECall [EEmit 3] false] true; ECall [EEmit 4] false; EEmit 5] false in
+  no_claim t = true /\ kept t = [1%N; 4%N; 5%N] /\ e_etxs (eexec code_fixd t (mkEvm [9%N] [] [] [] [])) = [9%N; 1%N; 4%N; 5%N].
+Proof. vm_compute. auto. Qed.
+
 (* FULL STATEMENT: forall body st k, lk_view (eexec false (ECall body true) st) k = lk_view st k
    (a failing frame leaves every lockup record as readable as before).  Proved for call trees that
    contain no claim; refuted below. *)
@@ -282,6 +295,19 @@ Print Assumptions object_mutators_covered.
 Theorem evm_interface_covered : evm_interface_covered_b evm_statedb_interface statedb_journalling = true.
 Proof. vm_compute. reflexivity. Qed.
 Print Assumptions evm_interface_covered.
+
+(* Every function of *EVM that runs code in a frame (Call, CallCode, DelegateCall, StaticCall, create -
+   exactly these) takes the full EVM snapshot and reverts to it, and only snapshot()/revertToSnapshot()
+   touch the bare StateDB revision: [ECall] models all call kinds. *)
+Theorem evm_frames_covered : evm_frames_covered_b evm_frame_functions vm_raw_revision_users = true.
+Proof. vm_compute. reflexivity. Qed.
+Print Assumptions evm_frames_covered.
+
+(* Every field of struct EVM assigned in package vm is one of the lists restored by revertToSnapshot or a
+   classified non-effect; evmSnapshot has the four fields the model's [evm_revert] uses. *)
+Theorem evm_side_state_covered : evm_side_state_covered_b evm_assigned_fields evm_snapshot_fields = true.
+Proof. vm_compute. reflexivity. Qed.
+Print Assumptions evm_side_state_covered.
 
 (* the tables used by those checks describe the model *)
 Theorem mutators_append_only_declared_kinds : forall fx o m,
